@@ -311,7 +311,7 @@ func writes(info *types.Info, n ast.Node) bool {
 		case *ast.IncDecStmt, *ast.SendStmt, *ast.GoStmt, *ast.DeferStmt:
 			w = true
 		case *ast.CallExpr:
-			name := calleeName(info, t)
+			name := lastSeg(calleeName(info, t))
 			if id, isId := ast.Unparen(t.Fun).(*ast.Ident); isId {
 				if _, b := info.Uses[id].(*types.Builtin); b && id.Name != "delete" && id.Name != "copy" && id.Name != "append" && id.Name != "clear" {
 					return true
@@ -393,4 +393,11 @@ func (e *FactEngine) translate(info *types.Info, cond ast.Expr, sg map[types.Obj
 		return "", false
 	}
 	return exprString(out), true
+}
+
+func lastSeg(s string) string {
+	if i := strings.LastIndex(s, "."); i >= 0 {
+		return s[i+1:]
+	}
+	return s
 }
